@@ -157,6 +157,21 @@ def run_case(kind, p):
         nonempty = dense.reshape(n, -1).sum(axis=1) > 1e-6
         if nonempty.any() and np.abs(sums[nonempty] - 1).max() > 1e-9:
             msgs.append(f"normalize=True (sparse={us}): bin sums {sums.tolist()}")
+    if p.get("norm_dtype"):
+        # normalisation with a result dtype of reduced precision: a bin that only just touches the frame (tiny, but non-zero sum)
+        # is a non-empty bin
+        ndt = np.dtype(p["norm_dtype"])
+        raw = dense.reshape(n, -1).sum(axis=1)
+        for us in (False, True):
+            nb = masks.radial_bins(cx, cy, sx, sy, radius=R, radius_inner=ri, n_bins=n, use_sparse=us, normalize=True, dtype=ndt)
+            nb = np.asarray(nb.todense() if us else nb, dtype=np.float64)
+            sums = nb.reshape(n, -1).sum(axis=1)
+            nonempty = raw > 1e-6
+            tol_ = {"float16": 5e-3, "float32": 1e-5}.get(ndt.name, 1e-9)
+            if nonempty.any() and np.abs(sums[nonempty] - 1).max() > tol_:
+                msgs.append(f"normalize=True, dtype={ndt.name} (sparse={us}): non-empty bins (raw sums {raw[nonempty].tolist()}) have "
+                            f"normalised sums {sums[nonempty].tolist()}")
+                break
     if p.get("dtype"):
         d2 = masks.radial_bins(cx, cy, sx, sy, radius=R, radius_inner=ri, n_bins=n, use_sparse=False, dtype=np.dtype(p["dtype"]))
         if d2.dtype != np.dtype(p["dtype"]) or np.abs(d2 - dense).max() > 1e-6:
@@ -223,7 +238,18 @@ def search(ctx, boost=1, focus=()):
         q.update({"sy": s_a, "sx": s_b, "cy": c_a, "cx": c_b} if k % 2 else {"sy": s_b, "sx": s_a, "cy": c_b, "cx": c_a})
         cases.append(q)
         ctx.count("centre_below_frame")
+    # bins that only just touch the frame: the farthest corner pixel gets a weight of 1e-4 .. 1e-6 from the inner ramp of the
+    # last bin and every other pixel none; results in float16 / float32 / float64, normalised
+    for k in range(9 * boost):
+        sy, sx = int(rng.integers(4, 30)), int(rng.integers(4, 30))
+        w_ = [2.5e-4, 3e-5, 4e-6][k % 3]
+        rmax = float(np.hypot(sy - 1, sx - 1))
+        cases.append({"cy": 0.0, "cx": 0.0, "sy": sy, "sx": sx, "ri": 0.0, "n": 2, "R": 2 * (rmax + 0.5 - w_),
+                      "norm_dtype": ["float16", "float32", "float64"][(k // 3) % 3]})
+        ctx.count("touching_bin")
     for p in cases:
+        if "norm_dtype" not in p and rng.random() < 0.3:
+            p["norm_dtype"] = ["float16", "float32"][int(rng.integers(2))]
         ctx.oracle_case("radial_bins", p, run_case("radial_bins", p),
                         nontrivial=(p["cy"] != int(p["cy"]) or p["ri"] > 0 or p["n"] > 1))
     ctx.count("oracle_bins", len(cases))
